@@ -104,6 +104,11 @@ def body_agp(case, rec):
     again = must(fmt, back, "agp", what="format_agp(parse_agp(text))")
     if again != text:
         raise Violation(f"re-formatting parsed canonical AGP text differs: {first_diff(text, again)}")
+    if text.endswith("\n"):
+        # the same file without its final newline (last line unterminated) holds the same assembly
+        got2 = plain_of(must(parse, text[:-1], "agp", what="parse_agp(text without final newline)"))
+        if got2 != want:
+            raise Violation(f"AGP text without its final newline parses differently: {diff(want, got2)}")
     # writing an assembly must not change it: TPF first (it may refuse '?' strands), then AGP again from the same object
     try:
         fmt(asm, "tpf")
@@ -111,6 +116,42 @@ def body_agp(case, rec):
         pass
     if must(fmt, asm, "agp", what="format_agp after format_tpf") != text:
         raise Violation("formatting the same assembly object as TPF changed what format_agp writes for it afterwards")
+
+
+def huge_cases(tier, shard, nshards):
+    """assemblies with tens of thousands of rows (a fragmented chromosome; row counts around 2**13, 10**4, 2**14, 2**15)"""
+    k = 0
+    for n_rows in (8191, 8193, 10001, 16385, 32769, 40000):
+        for tagged in (False, True):
+            k += 1
+            if k % nshards != shard:
+                continue
+            rows = []
+            pos = 1
+            for i in range(n_rows):
+                if i % 2:
+                    rows.append(["G", 100 + i % 7, "scaffold"])
+                else:
+                    ln = 50 + (i * 7919) % 1000
+                    row = ["F", f"ctg{i % 97}", pos, pos + ln - 1, 1 if i % 3 else -1]
+                    if tagged and i % 5 == 0:
+                        row.append(["Painted"])
+                    rows.append(row)
+                    pos += ln
+            if rows[-1][0] == "G":
+                rows.pop()
+            yield {"header": ["DESCRIPTION: huge"], "scaffolds": [["small_1", [["F", "a", 1, 9, 1]]], ["big", rows], ["small_2", [["F", "b", 5, 9, -1]]]]}
+
+
+def body_huge(case, rec):
+    body_agp(case, rec)
+    body_tpf(case, rec)
+    asm = conv.mk_assembly("x", case["scaffolds"], header=case["header"])
+    from vf import ref
+
+    msg = ref.agp_validate(fmt(asm, "agp"))
+    if msg:
+        raise Violation(f"AGP of an assembly with {len(case['scaffolds'][1][1])} rows in one object: {msg}")
 
 
 def tpf_carryable(case):
@@ -139,6 +180,10 @@ def body_tpf(case, rec):
     again = must(fmt, back, "tpf", what="format_tpf(parse_tpf(text))")
     if again != text:
         raise Violation(f"re-formatting parsed canonical TPF text differs: {first_diff(text, again)}")
+    if text.endswith("\n"):
+        got2 = plain_of(must(parse, text[:-1], "tpf", what="parse_tpf(text without final newline)"), with_tags=True)
+        if got2 != want:
+            raise Violation(f"TPF text without its final newline parses differently: {diff(want, got2)}")
 
 
 def body_cli(case, rec):
@@ -443,6 +488,8 @@ SUBS = [
         budget={"quick": 8000, "thorough": 150000}, desc="parse_agp(format_agp(a)) = a; format(parse(text)) = text"),
     Sub("tpf", kind="hyp", strategy=lambda: assembly_cases(tpf=True), body=body_tpf,
         budget={"quick": 8000, "thorough": 150000}, desc="same through TPF (no tags; '?' strands raise or round-trip)"),
+    Sub("huge", kind="enum", cases=huge_cases, body=body_huge,
+        budget={"quick": 12, "thorough": 12}, desc="objects of 8 191 - 40 000 rows: AGP and TPF round trips, part numbers"),
     Sub("cli", kind="hyp", strategy=lambda: st.builds(lambda c, k, e: dict(c, stdin=k == 0, ext=e), assembly_cases(tpf=True).filter(lambda c: all(r[0] == "G" or r[4] != 0 for _n, rows in c["scaffolds"] for r in rows)), st.integers(0, 7), st.sampled_from(["lower", "lower", "UPPER", "Mixed"])),
         body=body_cli, budget={"quick": 320, "thorough": 5000}, desc="asm-format AGP -> TPF -> AGP"),
     Sub("lines", kind="hyp", strategy=line_cases, body=body_lines,
